@@ -265,7 +265,7 @@ func (in *vfC14Inst) shutdown(judge bool) string {
 		if i := strings.LastIndex(gr, "created by "); i >= 0 {
 			created = gr[i:]
 		}
-		if strings.Contains(created, "vfC14Inst") || strings.Contains(created, ".vf") {
+		if strings.Contains(created, "vfC14Inst") || strings.Contains(created, ".vf") || strings.Contains(created, "(*vf") {
 			continue // a harness goroutine stuck inside a call: reported above
 		}
 		line := vfFirstLine(created)
@@ -314,7 +314,7 @@ func vfC14Scenarios(thorough bool) []*vfGWScenario {
 				name += "-discovery"
 			}
 			out = append(out, &vfGWScenario{Name: name, Cfg: vfGWCfg{Router: router, Peers: peers, Topics: []string{"t"}, Params: "d2", Scoring: router == "gossip", QueueSize: 2,
-				Prefix: []string{"conn:a", "sub:a:t", "hold:h", "conn:h"}, Extra: map[string]string{"discovery": disc, "park_local": "1"},
+				Prefix: []string{"conn:a", "sub:a:t", "hold:h", "conn:h"}, Extra: map[string]string{"discovery": disc, "park_local": "1", "leak_is_violation": "1"},
 				Validators: []vfValCfg{{Name: "V", Topic: "t", Inline: true, Gated: true, Verdict: "A", GateOnly: []string{"m1", "local:x"}}}},
 				Alphabet: []string{"gate:a", "pub:a:m1", "vrel:V:m1:A", "release:h"}, Msgs: msgs, Depth: d, Leaf: []string{"cancel"}})
 		}
